@@ -623,6 +623,12 @@ class dir_archive(archive):
         try:
             _file = os.path.join(self._mkdir(_key), self._file)
             if input: _args = os.path.join(self._getdir(_key), self._args)
+            # the temporary directory may be left over from a store that was
+            # killed (same name drawn again after random.seed): start it empty
+            for f in os.listdir(self._getdir(_key)):
+                f = os.path.join(self._getdir(_key), f)
+                if os.path.isdir(f): shutil.rmtree(f, ignore_errors=True)
+                else: os.remove(f)
             if self.__state__['serialized']:
                 protocol = self.__state__['protocol']
                 if self.__state__['fast']:
